@@ -9,6 +9,9 @@
 u8_t bufferctrl::live_num = 0;
 buffergroup *buffergroup::instance = NULL;
 std::mutex buffergroup::mtx;
+#ifdef WENCRY_VERIF
+u32_t iobuffer::sum = iobuffer::BUF_SZ << 4;
+#endif
 
 /*################################
   单缓冲区函数
